@@ -75,8 +75,9 @@ def _one(args):
     acks = [bytes(p["ack"][0]) if p["ack"] else b"ok\n" for p in plan]
     status = {k + 1: [bytes(x[0]) for x in p["status"]] for k, p in enumerate(plan) if p["status"]}
     boot = args.get("boot") if isinstance(args, dict) else None
+    grbl = isinstance(args, dict) and args.get("grbl")
     t = serial_rec.run_direct(stmts, acks, status=status, readings=True, do_disconnect=False, settle=0.005, mode=mode,
-                              boot_reply=bytes(boot[0]) if boot else None)
+                              boot_reply=bytes(boot[0]) if boot else ([b"Grbl 1.1h ['$' for help]\n", b"ok\n"] if grbl else None))
     ev = []
     if boot:
         ev.append({"k": "report", "toks": boot[1]["toks"], "grbl": boot[1]["grbl"], "ok": boot[1]["ok"], "readings": _none()})
@@ -145,6 +146,8 @@ class P(flow.Plan):
             rng = random.Random(sd * 4099 + i)
             # every third execution runs with DEBUG logging enabled process-wide (added after seed C18g)
             plans.append({"plan": make_plan(rng, rng.randint(1, 5)), "mode": "socket" if i % 2 else "serial", "verbose": i % 3 == 2})
+            if i % 4 == 3:
+                plans[-1]["grbl"] = True          # the device greets with a Grbl banner: no line numbers from then on
             if i % 4 == 1:
                 # the line that brings the host online is a report itself: "ok T:.. B:.." answering the probe, or a bare auto-report
                 line, rep = make_report(rng, rng.choice(["marlin_temp_ok", "marlin_temp"]))
